@@ -297,6 +297,11 @@ def gen_timer_storm(R):
     nn = R.randint(1, 3)
     k = R.choice([40, 64, 65, 70, 100, 130])
     acts = [("settimer", 0, "abs", R.choice([1.0, 2.0, 3.0, 4.0]) + i * 0.001) for i in range(k)]
+    if R.random() < 0.6:
+        # many survivors with unrelated due times interleaved with the cancelled ones, in no particular order
+        acts = [("settimer", 0, "abs", round(R.uniform(0.25, 8.0), 3)) for _ in range(k)]
+        for _ in range(R.randint(8, 60)):
+            acts.insert(R.randrange(len(acts) + 1), ("settimer", R.choice([1, 2]), "abs", round(R.uniform(0.25, 8.0), 3)))
     acts.insert(R.randrange(len(acts)), ("settimer", 1, "abs", 0.5))
     acts.insert(R.randrange(len(acts)), ("settimer", 2, "abs", 2.5))
     acts += [("settimer", 1, "abs", 6.0), ("settimer", 2, "abs", 5.0), ("settimer", 1, "abs", 1.5), ("settimer", 2, "abs", 3.5), ("settimer", 1, "abs", 4.5)]
@@ -666,6 +671,39 @@ def gen_range_scenario(R, lossy=False):
     return sc
 
 
+def gen_same_instant_scenario(R):
+    """two sends at the very instant of a mobility update, one queued before the update (a timer armed at
+    initialisation) and one made from the telemetry the update delivers, while the pair crosses the range
+    boundary during exactly that update: each must be judged on the positions of its own moment"""
+    rate = R.choice([0.25, 0.5])
+    v = R.choice([2.0, 4.0, 8.0])
+    k = R.randint(1, 5)
+    x0 = float(R.randint(1, 6))
+    away = R.random() < 0.5
+    far = x0 + v * rate * 12
+    start, target = (x0, far) if away else (far, x0)
+    sgn = 1.0 if away else -1.0
+    pre, post = start + sgn * v * rate * (k - 1), start + sgn * v * rate * k
+    rng = (pre + post) / 2
+    mover = R.randrange(2)
+    T = k * rate
+    nodes = [{"pos": (0.0, 0.0, 0.0), "ty": 0}, {"pos": (0.0, 0.0, 0.0), "ty": 0}]
+    nodes[mover]["pos"] = (start, 0.0, 0.0)
+    script = [[], []]
+    script[mover].append({"trig": ("init",), "nth": None, "acts": [("goto", target, 0.0, 0.0)]})
+    a, b = R.randrange(2), R.randrange(2)                    # who sends before / after the update
+    kind = lambda me, m: ("send", m, 1 - me) if R.random() < 0.6 else ("bcast", m)
+    script[a].append({"trig": ("init",), "nth": None, "acts": [("settimer", 0, "abs", T)]})
+    script[a].append({"trig": ("timer", 0), "nth": 0, "acts": [kind(a, 1)]})
+    script[b].append({"trig": ("telem",), "nth": k - 1, "acts": [kind(b, 2)]})
+    if R.random() < 0.5:
+        script[1 - b].append({"trig": ("telem",), "nth": k, "acts": [kind(1 - b, 3)]})
+    hs = ["T", "C", "M"]
+    R.shuffle(hs)
+    return {"handlers": hs, "nodes": nodes, "med": (rng, R.choice([0.0, 0.0, 0.125]), 0.0), "mob": (rate, v, (0.0, 0.0, 0.0)),
+            "asserts": [], "seed": 1, "dur": T + 1.0, "maxit": None, "drv": ("run",), "script": script}
+
+
 def check_C09(chk, R, S):
     chk.rule = ("3-D placements incl. exact boundary distances (scaled Pythagorean quadruples, +-2^-20 off), per-node ranges "
                 "changed at arbitrary times, delays, nodes moving while messages are in flight; expected receivers "
@@ -673,6 +711,7 @@ def check_C09(chk, R, S):
     run_corpus(chk, [M.mon_C09])
     scs = [gen_range_scenario(R) for _ in range(S["sims"])]
     run_sim_class(chk, "sim-range", scs, [M.mon_C09])
+    run_sim_class(chk, "sim-same-instant", [gen_same_instant_scenario(R) for _ in range(max(40, S["sims"] // 10))], [M.mon_C09])
     nb = sum(1 for sc in scs for nd in sc["nodes"][1:] if (M._py_sq(sc["nodes"][0]["pos"], nd["pos"]) == sc["med"][0] ** 2))
     chk.extra["boundary_pairs"] = nb
 
